@@ -102,14 +102,20 @@ fn main() {
             }
         }
     }
-    // hand-over: advance on thread A, send the iterator to thread B, continue there
-    for (e, steps) in &c.handovers {
+    // hand-over: advance on thread A, send the iterator to thread B.  Thread B has created its own
+    // iterator first (same creation ordinal on its thread), advanced it by the same number of
+    // steps, and then alternates next() calls between the received iterator and its own one, so
+    // that the two are at the same position in adjacent calls.  Variant 0: B's own evaluator has
+    // the same configuration; variant 1: the next configuration of the case.
+    for (hn, (e, steps)) in c.handovers.iter().enumerate() {
         let i = *e as usize % k;
-        let cfg = c.cfgs[i].clone();
+        let j = if hn % 2 == 0 { i } else { (i + 1) % k };
+        let cfg_a = c.cfgs[i].clone();
+        let cfg_b = c.cfgs[j].clone();
         let steps = *steps as usize;
         let (tx, rx) = mpsc::channel();
         let a = std::thread::spawn(move || {
-            let mut it = cfg.evaluator().into_iter();
+            let mut it = cfg_a.evaluator().into_iter();
             let mut first: Vec<Showdown> = vec![];
             for _ in 0..steps {
                 match it.next() {
@@ -120,19 +126,49 @@ fn main() {
             tx.send((it, first)).unwrap();
         });
         let b = std::thread::spawn(move || {
-            let (it, mut first): (_, Vec<Showdown>) = rx.recv().unwrap();
-            let it: <FlopExhaustiveEvaluator as IntoIterator>::IntoIter = it;
-            first.extend(it);
-            first
+            let mut own = cfg_b.evaluator().into_iter();
+            let mut own_out: Vec<Showdown> = vec![];
+            let mut own_done = false;
+            for _ in 0..steps {
+                match own.next() {
+                    Some(s) => own_out.push(s),
+                    None => {
+                        own_done = true;
+                        break;
+                    }
+                }
+            }
+            let (it, mut got): (_, Vec<Showdown>) = rx.recv().unwrap();
+            let mut it: <FlopExhaustiveEvaluator as IntoIterator>::IntoIter = it;
+            let mut got_done = false;
+            while !(got_done && own_done) {
+                if !got_done {
+                    match it.next() {
+                        Some(s) => got.push(s),
+                        None => got_done = true,
+                    }
+                }
+                if !own_done {
+                    match own.next() {
+                        Some(s) => own_out.push(s),
+                        None => own_done = true,
+                    }
+                }
+            }
+            (got, own_out)
         });
         if a.join().is_err() {
             fail("thread-panic", "hand-over source thread panicked".into());
         }
         match b.join() {
-            Ok(all) => {
+            Ok((all, own)) => {
                 let g = fingerprint(&trs[i], &all);
                 if g != solo[i] {
-                    fail("handover-differs", format!("evaluator {} advanced {} steps on one thread and continued on another gives {} showdowns / a different sequence than alone ({})", i, steps, g.len(), solo[i].len()));
+                    fail("handover-differs", format!("evaluator {} advanced {} steps on one thread and continued on another thread (interleaved there with that thread's own evaluator {}) gives {} showdowns / a different sequence than alone ({})", i, steps, j, g.len(), solo[i].len()));
+                }
+                let o = fingerprint(&trs[j], &own);
+                if o != solo[j] {
+                    fail("handover-disturbs-host", format!("evaluator {} created and stepped on a thread that then received evaluator {} from another thread gives {} showdowns / a different sequence than alone ({})", j, i, o.len(), solo[j].len()));
                 }
             }
             Err(_) => fail("thread-panic", "hand-over target thread panicked".into()),
